@@ -248,10 +248,11 @@ class _Parser(config_parse_common._Parser):
         # rename `min-align` property to `minimum-alignment`
         _copy_prop_if_exists(v3_ft_node, v2_ft_node, 'min-align', 'minimum-alignment')
 
-        # convert fields to members
+        # convert fields to members (a null `fields` property means no
+        # fields)
         prop_name = 'fields'
 
-        if prop_name in v2_ft_node:
+        if v2_ft_node.get(prop_name) is not None:
             members_node = []
 
             for member_name, v2_member_ft_node in v2_ft_node[prop_name].items():
